@@ -66,8 +66,20 @@ def _kwargs_mrts_resolution(st: ast.stmt, name: str, wm: WrapperModel, fi: FuncI
     if not isinstance(st, ast.If) or st.orelse:
         return None
     t = st.test
+    kw = fi.node.args.kwarg.arg if fi.node.args.kwarg is not None else None
+
+    def is_mrts_value(e) -> bool:
+        if isinstance(e, ast.Name) and e.id == name:
+            return True
+        # the keyword read from the dictionary itself: kwargs.get('MRTS'[, default]) / kwargs['MRTS']
+        if kw and isinstance(e, ast.Call) and isinstance(e.func, ast.Attribute) and e.func.attr == 'get' \
+                and isinstance(e.func.value, ast.Name) and e.func.value.id == kw and e.args \
+                and isinstance(e.args[0], ast.Constant) and e.args[0].value == 'MRTS' \
+                and (len(e.args) == 1 or (isinstance(e.args[1], ast.Constant) and not isinstance(e.args[1].value, str))):
+            return True
+        return False
     if not (isinstance(t, ast.Call) and isinstance(t.func, ast.Name) and t.func.id == 'isinstance' and len(t.args) == 2
-            and isinstance(t.args[0], ast.Name) and t.args[0].id == name):
+            and is_mrts_value(t.args[0]) and isinstance(t.args[1], ast.Name) and t.args[1].id == 'str'):
         return None
     for s in st.body:
         if isinstance(s, ast.Assign) and isinstance(s.value, ast.Call) and isinstance(s.targets[0], ast.Subscript) \
